@@ -96,7 +96,7 @@ impl BranchOpsTracker {
 
         let base_compressed_end = std::cmp::min(end, base.node.prefix_compressed() as usize);
 
-        if start != base_compressed_end {
+        if start < base_compressed_end {
             let chunk = KeepChunk {
                 start,
                 end: base_compressed_end,
@@ -118,8 +118,9 @@ impl BranchOpsTracker {
             }
         }
 
-        // Every kept uncompressed separator becomes an Insert operation.
-        for i in base_compressed_end..end {
+        // Every kept uncompressed separator becomes an Insert operation. The range to keep may
+        // begin inside the uncompressed tail of the base node.
+        for i in std::cmp::max(start, base_compressed_end)..end {
             let (key, pn) = base.key_value(i);
             self.push_insert(key, pn);
         }
